@@ -12,12 +12,20 @@ that produced it; allocator / pool / string events never occur outside a mutatin
 (so never during the read-only observation); after every call the live blocks of each allocator
 are exactly the pools, tables and string nodes of the documents using it (so nothing remains after
 clear(), destruction, move, swap, copy-assignment); equal copied strings are stored once with
-refs = users >= 1; slots in use are exactly the reachable ones."""
+refs = users >= 1; slots in use are exactly the reachable ones.
+Deserializers on their own (reader_replay, expected outcomes from JsonReader.tla / MsgPack.tla): malformed
+inputs, long tokens, strings and keys on both sides of the longest string a build can store, MessagePack
+encodings and corruptions; after every run the allocator ledger is empty and the memory bound holds."""
 import os
+import random
 
 import vlib
 from checks import doccommon as dc
 from checks import memtrace, poolmc
+from checks import readerchecks as rk
+from checks import readercommon as rc
+from checks import readergen as rg
+from checks import msgpackcommon as mpc
 
 
 def run(tier):
@@ -39,10 +47,23 @@ def run(tier):
     chk.phase("tlc:SlotPool", configurations=passed, states=chk.cov["states"])
     memtrace.record_and_validate(chk, bins, geoms, wd, events=1500 if quick else 12000,
                                  runs_per_bin=2 if quick else 6)
+    # the deserializers on their own: whatever the outcome (Ok, a syntax error, NoMemory for a string or key beyond
+    # the build's maximum) nothing remains allocated after the document is destroyed, nothing is released twice,
+    # and the memory requested stays within the bound; expected outcomes from JsonReader.tla / MsgPack.tla
+    D = rc.OPTS_DEFAULT
+    small = ["ARDUINOJSON_SLOT_ID_SIZE=1", "ARDUINOJSON_STRING_LENGTH_SIZE=1", "ARDUINOJSON_POOL_CAPACITY=4"]
+    rbins = rk.build_readers([("def", D, [], False), ("small", D, small, False)])
+    rng = random.Random(vlib.seed() + 6)
+    n = 1200 if quick else 20000
+    lines = rg.gen_mutants(rng, D, n) + rg.gen_long_tokens(rng, D, n // 3)
+    rk.run_feed(chk, wd, "reader-ledger", lines, None, [("def", rbins["def"]), ("small", rbins["small"])])
+    rk.run_feed(chk, wd, "reader-ledger-longstrings", rg.gen_long_strings(rng, D, 255, 300 if quick else 4000), None,
+                [("small", rbins["small"])])
+    mpc.run_msgpack_feed(chk, wd, "reader-ledger-msgpack", rng, n // 2, [("def", rbins["def"]), ("small", rbins["small"])])
     chk.cov["distinct_nontrivial"] = chk.cov["evaluations"]
     chk.cov["rule"] = ("one evaluation = one recorded event (hook event, allocator call, or public call with "
-                       "inspector snapshot) accepted by SlotPoolTrace.tla; SlotPool.tla itself is explored "
-                       "exhaustively per geometry under the stated state constraint")
+                       "inspector snapshot) accepted by SlotPoolTrace.tla, or one deserializer run with its ledger; "
+                       "SlotPool.tla itself is explored exhaustively per geometry under the stated state constraint")
     chk.cov["geometries"] = geoms
     chk.assumptions += ["fault-free executions here (failures are C05's business); shrinking reallocate never fails",
                         "the hook events are emitted by guarded code in /repo (BBLANCHON_ARDUINOJSON_VERIF)",
